@@ -606,6 +606,17 @@ def run(ctx):
     c04.reverse_rules(ctx, r12)
     r12.floor(12)
 
+    # ---- R13 transaction demarcation and the post-commit queue itself ------------
+    r13 = ctx.rule('R13', 'transaction(): commit exactly after a normal '
+                   'body, end on every exit; post-commit queue: fresh per '
+                   'call, cleared on every exit, run after a normal return, '
+                   'every operation with its arguments in the right '
+                   'transaction context', 'GD/PAIR')
+    from mstatic.rules import txqueue
+    txqueue.transaction_shape(ctx, r13)
+    txqueue.queue_shape(ctx, r13)
+    r13.floor(15)
+
     # ---- R11 explicit raises escaping engine entry points --------------------------------
     r11 = ctx.rule('R11', 'explicit raises of undeclared error types that '
                    'can escape an engine entry point equal the frozen '
